@@ -169,7 +169,7 @@ def make_slot(k):
 def run_one(m, slot, results_path, lock):
     rel = m["file"]
     path = os.path.join(slot, rel)
-    orig = open(os.path.join(REPO, rel), "rb").read()
+    orig = open(path, "rb").read()       # the slot's copy (HEAD): /repo's working tree may carry a seed patch at this moment
     mut = orig[:m["a"]] + m["new"].encode() + orig[m["b"]:]
     res = dict(id=m["id"], file=rel, line=m["line"], kind=m["kind"], old=m["old"], new=m["new"])
     try:
